@@ -244,9 +244,11 @@ def _unambiguous_primal(
     unnormalized_dms = [p * to_density_matrix(vector) for (p, vector) in zip(probs, vectors)]
     sums_of_unnormalized_dms = picos.sum(unnormalized_dms)
 
-    problem.add_list_of_constraints(m | rho == 0 for (m, rho) in zip(measurements, unnormalized_dms))
+    # <M_i, rho_i> is real for Hermitian operators; constraining its (identically zero) imaginary part as well hands the
+    # solver a redundant equality row, on which CVXOPT's KKT solver breaks down or returns a wrong optimum.
+    problem.add_list_of_constraints((m | rho).real == 0 for (m, rho) in zip(measurements, unnormalized_dms))
 
-    problem.set_objective("min", picos.trace(sums_of_unnormalized_dms * inconclusive_measurement))
+    problem.set_objective("min", picos.trace(sums_of_unnormalized_dms * inconclusive_measurement).real)
     solution = problem.solve(solver=solver, **kwargs)
 
     return solution.value, measurements + [inconclusive_measurement]
